@@ -426,6 +426,30 @@ func (c *Ctx) RuleRxIncl() *Result {
 				// a call inside a table loop nested in the line loop runs for every entry when it
 				// dominates the latches of that loop; the table loop's header then stands for it
 				anchor := call.Block()
+				// a cheap literal test of the same line in front of the replacement that the pattern implies
+				// (every line the pattern matches passes the test) skips nothing the replacement would change:
+				// the block of the test stands for the call
+				if pat, _ := c.Rx().Resolve(recv); pat != nil {
+					for steps := 0; steps < 4 && len(anchor.Preds) == 1; steps++ {
+						pred := anchor.Preds[0]
+						iff, ok := pred.Instrs[len(pred.Instrs)-1].(*ssa.If)
+						if !ok || pred.Succs[0] != anchor || !l.body[pred] {
+							break
+						}
+						t, ok := iff.Cond.(*ssa.Call)
+						if !ok {
+							break
+						}
+						guard, subj, ok := literalTestLang(t)
+						if !ok || !sameEntry(call.Call.Args[1], subj) {
+							break
+						}
+						if r, err := rx.NotIncluded(searchLang(pat), guard); err != nil || r.Found {
+							break
+						}
+						anchor = pred
+					}
+				}
 				for changed := true; changed; {
 					changed = false
 					for _, il := range naturalLoops(fn) {
@@ -484,6 +508,23 @@ func (c *Ctx) templateShape(v ssa.Value, fn *ssa.Function, depth int) (string, [
 			var args []ssa.Value
 			if len(x.Call.Args) > 1 {
 				if sl, ok := x.Call.Args[1].(*ssa.Slice); ok {
+					args = variadicElems(sl)
+				}
+			}
+			return format, args, fn, ""
+		}
+		// the []byte form: fmt.Appendf(nil, format, values...)
+		if isFn(staticCallee(&x.Call), "fmt", "Appendf") && len(x.Call.Args) >= 2 {
+			if k, isC := x.Call.Args[0].(*ssa.Const); !isC || k.Value != nil {
+				return "", nil, nil, "the replacement template is appended to an existing buffer"
+			}
+			format, ok := constString(x.Call.Args[1])
+			if !ok {
+				return "", nil, nil, "the replacement template format is not constant"
+			}
+			var args []ssa.Value
+			if len(x.Call.Args) > 2 {
+				if sl, ok := x.Call.Args[2].(*ssa.Slice); ok {
 					args = variadicElems(sl)
 				}
 			}
@@ -843,4 +884,38 @@ func (c *Ctx) liveFn(fn *ssa.Function) bool {
 		}
 	}
 	return c.live[fn]
+}
+
+// literalTestLang: the language of the texts that pass strings/bytes HasPrefix, HasSuffix, Contains or
+// ContainsAny with a constant, and the text that is tested.
+func literalTestLang(t *ssa.Call) (*rx.Lang, ssa.Value, bool) {
+	if len(t.Call.Args) != 2 {
+		return nil, nil, false
+	}
+	f := staticCallee(&t.Call)
+	if f == nil || (objPkgPath(f) != "strings" && objPkgPath(f) != "bytes") {
+		return nil, nil, false
+	}
+	text, isC := constString(stripConv(t.Call.Args[1]))
+	if !isC || text == "" {
+		return nil, nil, false
+	}
+	var src string
+	switch f.Name() {
+	case "HasPrefix":
+		src = `(?s)^` + regexpQuote(text)
+	case "HasSuffix":
+		src = `(?s)` + regexpQuote(text) + `$`
+	case "Contains":
+		src = regexpQuote(text)
+	case "ContainsAny":
+		src = `[` + classQuote(text) + `]`
+	default:
+		return nil, nil, false
+	}
+	l, err := rx.SearchPattern("texts that pass "+f.Name()+"("+text+")", src)
+	if err != nil {
+		return nil, nil, false
+	}
+	return l, t.Call.Args[0], true
 }
